@@ -60,6 +60,7 @@ class SimSocket:
         self.linger0 = False
         self.opts = {}
         self.blocking = True
+        self.last_recv = None     # outcome class of the latest recv(): "data" / "eof" / "err" / "eagain"
 
     # -- plumbing -------------------------------------------------------------------------
     def fileno(self):
@@ -151,20 +152,25 @@ class SimSocket:
             out = bytes(self.rx[:n])
             del self.rx[:n]
             k.log.append((self.name, "recv", n, len(out)))
+            self.last_recv = "data"
             return out
         if self.fin_rcvd and not self.fin_read:
             self.fin_read = True
             k.log.append((self.name, "recv", n, "eof"))
+            self.last_recv = "eof"
             return b""
         if self.err:
             e, self.err = self.err, 0
             k.log.append((self.name, "recv", "err", e))
+            self.last_recv = "err"
             raise OSError(e, "pending socket error")
         if self.reset or self.fin_rcvd or self.rd_shut:
             k.log.append((self.name, "recv", n, "eof"))
+            self.last_recv = "eof"
             return b""
         k.log.append((self.name, "recv", "err", errno.EAGAIN))
         k.flags.add("recv-ewouldblock")
+        self.last_recv = "eagain"
         raise BlockingIOError(errno.EAGAIN, "Resource temporarily unavailable")
 
     def shutdown(self, how):
